@@ -887,6 +887,16 @@ class Interp:
             for p, l in d.items():
                 if l[0] == "term" and "widen" in repr(l):
                     before[(root, p)] = l
+        # upper bounds the facts state for the old and for the new value of each changed leaf (read before anything is
+        # forgotten): a bound that is the same expression of the loop's other variables before and now - `i <= len - start`
+        # with `start` itself changing - is kept for the widened value, expressed over the widened atoms
+        def bounds_of(v):
+            return [k[1] for k, c in st.facts.items() if k[0] == "lt" and c == ("bool", False) and k[2] == v and k[1][0] == "term"]
+        rel_bounds = {}
+        for root, p, old, new in changed:
+            if new[0] == "term" and old[0] == "term":
+                rel_bounds[(root, p)] = (bounds_of(old), bounds_of(new))
+        leaders = []
         for root, p, old, new in changed:
             processed.add((root, p))
             g = groups.get((old, new))
@@ -903,12 +913,26 @@ class Interp:
             if w_ != TOP:
                 atoms.add(w_)
                 groups[(old, new)] = w_
+                leaders.append((root, p, w_))
                 if new[0] == "term" and new[1][0] != "in" and old[0] == "term" and old[1][0] != "in" and old != w_:
                     sub_old[old] = w_
                     sub_new[new] = w_
                 elif new[0] == "term" and new[1][0] != "in" and old == w_:
                     sub_new[new] = w_
                     sub_old[old] = w_
+        # relational thresholds
+        for root, p, w_ in leaders:
+            bo, bn = rel_bounds.get((root, p), ((), ()))
+            if not bo or not bn:
+                continue
+            so_all = set(_subst(c, sub_old) for c in bo)
+            for c in bn:
+                sn = self._subst_fresh(c, sub_new) if sub_new else c
+                if sn is None or sn not in so_all:
+                    continue
+                if sn == w_ or not any(self.mentions(sn, a_[1]) for a_ in atoms):
+                    continue          # plain bounds are handled by widen_leaf's thresholds
+                st.facts[("lt", sn, w_)] = ("bool", False)
         # leaves created during this iteration
         if sub_new:
             for root, d in st.mem.items():
